@@ -69,8 +69,23 @@ def handlers : List (String × Handler) := [
   ("names.valid", fun
     | [k, c, n, ex, ign, uc] =>
       match kind? k, cfg? c, n.str?, ex.strs?, ign.bool?, uc.bool? with
-      | some k, some c, some n, some ex, some ign, some uc => encRes (getValidName pyEnv k c n ex ign uc)
+      | some k, some c, some n, some ex, some ign, some uc =>
+        -- the constructor first: an option vector it refuses gives no resolver object (reply `rejected`)
+        match construct c with
+        | none => "rejected"
+        | some c => encRes (getValidName pyEnv k c n ex ign uc)
       | _, _, _, _, _, _ => "err args"
+    | _ => "err args"),
+  -- names.new <special_field_name_prefix as passed: hex | none> → ok <prefix as stored> | rejected
+  -- (`FieldNameResolver.__init__`, the same for the three classes)
+  ("names.new", fun
+    | [p] =>
+      match optStr? p with
+      | some p =>
+        match construct { pfx := storedPrefix p } with
+        | none => "rejected"
+        | some c => "ok " ++ encodeStr c.pfx
+      | none => "err args"
     | _ => "err args"),
   ("names.validf", fun
     | [f, k, c, n, ex, ign, uc] =>
